@@ -232,6 +232,50 @@ def bounded(b):
                 bad = "after the history, (divisions, quarter, beat) at t=%d are %r; the latest settings %r mean %r" % (t, got, final, want)
                 break
         b.case("maps/latest_setting_in_force_after_an_edit_history", bad is None, case, bad or "")
+    # the order in which a part is put together is not part of the part: later bars first, the opening prepended, divisions declared last
+    def order_a():
+        p = sc.Part("P", quarter_duration=4)
+        p.add(sc.Note("E", 4, id="late", voice=1), 8, 16)      # the first object ever added does not stand at the start
+        p.add(sc.TimeSignature(4, 4), 0)
+        p.add(sc.Note("C", 4, id="early", voice=1), 0, 8)
+        p.add(sc.Measure(number=1), 0, 16)
+        p.add(sc.Note("G", 4, id="more", voice=2), 16, 32)
+        p.add(sc.Measure(number=2), 16, 32)
+        return p, [(0, 4)]
+
+    def order_b():
+        p = sc.Part("P")                                          # divisions declared after the notes are in
+        p.add(sc.Note("E", 4, id="late", voice=1), 18, 30)
+        p.add(sc.Note("C", 4, id="early", voice=1), 6, 18)
+        p.add(sc.Note("A", 3, id="upbeat", voice=1), 0, 6)
+        p.set_quarter_duration(0, 6)
+        p.add(sc.TimeSignature(2, 4), 0)
+        p.add(sc.Measure(number=1), 0, 6)
+        p.add(sc.Measure(number=2), 6, 18)
+        p.add(sc.Measure(number=3), 18, 30)
+        return p, [(0, 6)]
+
+    def order_c():
+        p = sc.Part("P", quarter_duration=2)
+        p.add(sc.Note("E", 4, id="late", voice=1), 12, 20)
+        p.set_quarter_duration(8, 4)
+        p.add(sc.Note("C", 4, id="early", voice=1), 0, 12)
+        p.add(sc.TimeSignature(4, 4), 0)
+        return p, [(0, 2), (8, 4)]
+    for oname, mk_ in (("later_note_first_then_the_opening", order_a), ("notes_back_to_front_then_the_divisions", order_b), ("late_note_then_a_divisions_change_then_the_opening", order_c)):
+        case = {"order_of_construction": oname}
+        ok, res = b.guard("maps/no_exception", case, mk_)
+        if not ok:
+            continue
+        p, intended = res
+        p._verif_intended_quarter_changes = intended
+        bad = None
+        for t in range(p.first_point.t, p.last_point.t + 1):
+            got = (int(p.quarter_duration_map(t)), float(p.quarter_map(t)), float(p.beat_map(t)))
+            want = (int(O.q_in_force(p, t)), float(O.quarter_pos(p, t)), float(O.beat_pos(p, t)))
+            if got[0] != want[0] or abs(got[1] - want[1]) > 1e-9 or abs(got[2] - want[2]) > 1e-9:
+                bad = bad or "(divisions, quarter, beat) at t=%d are %r; the divisions declared %r and the signatures mean %r" % (t, got, intended, want)
+        b.case("maps/follow_the_part_as_it_is_now", bad is None, case, bad or "")
     # a map asked for, the part edited in place, the map asked for again: the second answer follows the edited part
     for edit_name, edit in (("replace_a_quarter_duration_at_an_existing_change", lambda p: p.set_quarter_duration(8, 3)),
                             ("replace_a_time_signature", lambda p: (p.remove([t for t in p.iter_all(sc.TimeSignature) if t.start.t == 8][0]), p.add(sc.TimeSignature(6, 8), 8))),
